@@ -2,6 +2,7 @@ package file
 
 import (
 	"context"
+	"errors"
 	"io"
 
 	"github.com/ipld/go-ipld-prime"
@@ -96,16 +97,19 @@ func (f *singleNodeReader) Seek(offset int64, whence int) (int64, error) {
 		return 0, err
 	}
 
+	target := f.offset
 	switch whence {
 	case io.SeekStart:
-		f.offset = int(offset)
+		target = int(offset)
 	case io.SeekCurrent:
-		f.offset += int(offset)
+		target += int(offset)
 	case io.SeekEnd:
-		f.offset = len(buf) + int(offset)
+		target = len(buf) + int(offset)
 	}
-	if f.offset < 0 {
-		return 0, io.EOF
+	if target < 0 {
+		// leave the reader where it was, as io.Seeker asks
+		return int64(f.offset), errors.New("unixfs file: seek to a negative position")
 	}
+	f.offset = target
 	return int64(f.offset), nil
 }
